@@ -175,14 +175,16 @@ func laExpected(name string, slots string, a abi.AsArgument) (d dis, immRange, b
 		case 'a':
 			v := int64(a.Imm)
 			lo, hi := int64(0), int64(1)<<uint(s[1]-'0')-1
-			if strings.HasPrefix(name, "alsl.") {
-				lo, hi = 1, 4 // assembler operand is the shift count 1..4, the field holds count-1
-			}
 			if v < lo || v > hi {
 				immRange = true
 			}
 			boundary = boundary || near(v, lo, hi)
 			noImm = false
+			if strings.HasPrefix(name, "alsl.") && !immRange {
+				// Wa follows the manual's notation (operand = field sa2, shift =
+				// sa2+1); binutils/LLVM/x-arch print the shift count sa2+1.
+				v++
+			}
 			d.args = append(d.args, imm(v))
 		case 'o':
 			bits := atoiSlot(s)
@@ -341,7 +343,14 @@ func laCheck(k kase) (v verdict) {
 	default:
 		indep = aspects(want, xa, immRange)
 		for _, a := range indep {
-			v.add(pfx+a, "%s; expected %q, x/arch loong64asm: %s", desc, want.String(), xa.String())
+			key := pfx + a
+			if a == "reg" && laIsAM(k.As) && len(xa.args) == 3 && len(want.args) == 3 &&
+				xa.args[0] == want.args[0] && xa.args[1] == want.args[2] && xa.args[2] == want.args[1] {
+				// one root cause for the whole family: the AM*/SC.Q assembler order is
+				// rd, rk, rj but the table gives them the generic 3R format (rd, rj, rk)
+				key = "la64/AM/operand-order"
+			}
+			v.add(key, "%s; expected %q, x/arch loong64asm: %s", desc, want.String(), xa.String())
 		}
 	}
 
@@ -376,6 +385,10 @@ func laCheck(k kase) (v verdict) {
 	}
 	return
 }
+
+// laIsAM: atomic memory access instructions, whose assembler operand order is
+// rd, rk, rj (LoongArch manual vol.1 §2.2.7).
+func laIsAM(name string) bool { return strings.HasPrefix(name, "am") || name == "sc.q" }
 
 func contains(list []string, s string) bool {
 	for _, x := range list {
